@@ -551,6 +551,8 @@ class C15(Prop):
                 # independence of Dataset.copy() per component
                 ["write_nc"], ["write_nc_append", key], ["to_dict"], ["eq"], ["neg"], ["mul_scalar"], ["sub_array", key],
                 ["reduce", rng.choice(["sum", "std", "var", "median"]), d], ["take_label", d, labels[d][rng.randrange(n)]],
+                # the engine behind take_axis / sort_axis / reindex_axis / interp_axis called directly, with and without keepattrs
+                ["reduce_axis", rng.choice(["mean", "sum", "max"]), d, rng.choice([None, False, True])],
                 ["getitem_dim", d], ["reindex_like", d, key], ["interp_like", d, key],
                 ["align_ds", d, rng.choice([False, True]), rng.choice(["outer", "inner"])],
                 ["stack_ds", rng.choice([False, True])], ["concatenate_ds", d], ["setitem_var", key], ["ctor_from_ds"],
@@ -596,6 +598,9 @@ class C15(Prop):
                     ds.mean(axis=call[1])
                 elif t == "reduce":
                     getattr(ds, call[1])(axis=call[2])
+                elif t == "reduce_axis":
+                    kw = {} if call[3] is None else {"keepattrs": call[3]}
+                    ds.reduce_axis(getattr(np, call[1]), axis=call[2], **kw)
                 elif t == "sort_axis":
                     ds.sort_axis(axis=call[1])
                 elif t == "copy":
